@@ -260,6 +260,12 @@ func run(line string) string {
 	return hx.Guard(func() string {
 		t := strings.Split(line, " ")
 		switch t[0] {
+		case "share":
+			return runShare(t)
+		case "nilcaps":
+			return runNilCaps(t)
+		case "cli":
+			return runCLI(t)
 		case "val":
 			c := capsOf(t[2])
 			err := plugin.ValidateRequirements(fake{"p", capsOf(t[1])}, &c)
@@ -811,6 +817,43 @@ func main() {
 		}
 	}
 	emit("uniq")
+	// configurations built from SHARED parts (both tiers): one filtered extractor list in two configurations whose detectors require
+	// different extractors; every ordered pair of detectors that require something, 5 selections, 4 capability tuples
+	var requiring []string
+	for _, d := range plugins["det"] {
+		if ds, err := dl.DetectorsFromNames([]string{d}); err == nil && len(ds) == 1 && len(ds[0].RequiredExtractors()) > 0 {
+			requiring = append(requiring, d)
+		}
+	}
+	sort.Strings(requiring)
+	for _, c := range []string{"1211", "1111", "1010", "0000"} {
+		for _, sel := range []string{"os", "default", "python", "javascript", "all"} {
+			for _, a := range requiring {
+				for _, b := range requiring {
+					if a != b {
+						emit("share " + c + " " + hx.Hex(sel) + " " + hx.Hex(a) + " " + hx.Hex(b))
+					}
+				}
+			}
+			emit("share " + c + " " + hx.Hex(sel) + " " + hx.Hex("all") + " " + hx.Hex("all"))
+		}
+	}
+	// capabilities left nil, at the three entry points, for every requirement tuple
+	for _, k := range []string{"val", "flt", "one"} {
+		for _, r := range caps {
+			emit("nilcaps " + k + " " + r)
+		}
+	}
+	// the configuration the command line builds with --filter-by-capabilities
+	for _, off := range []string{"0", "1"} {
+		for _, db := range []string{"-", hx.Hex("/db")} {
+			for _, ex := range []string{"default", "all", "os,os/dpkg", "python,python/wheelegg,go/binary", "go/binary", "windows", "os,default,all"} {
+				for _, de := range append([]string{"all", "govulncheck/binary"}, requiring...) {
+					emit("cli " + off + " " + db + " " + hx.Hex(ex) + " " + hx.Hex(de))
+				}
+			}
+		}
+	}
 	// scan-root shapes (both tiers): the filtered registry, the filtered defaults and EVERY plugin alone, for every capability
 	// tuple x {no root, a real directory, a virtual file system, both}: requirement validation and a real Scan
 	for _, sh := range []string{"n", "r", "v", "rv", "np", "vp", "rvp", "c", "cp", "e"} {
